@@ -104,6 +104,35 @@ theorem write_through_accessor (x y : Container α) (i j k : Nat) (v : α) :
       y.mean = x.mean ∧ y.cov = x.cov ∧ y.weight = x.weight) :=
   ⟨writeMean_get, writeCov_get, writeWeight_get, writeState_get⟩
 
+/-- In a well-formed container every element access through the accessors of a component
+    `i < components` with indices inside the declared sizes is inside the storage (no Eigen
+    assertion): `mean(i, j)` for `j < dim`, `covariance(i, j, k)` for `j, k < dim_covariance`,
+    `weight(i)`, and for particle sets `state(i, j)` for `j < dim − dim_noise`. -/
+theorem element_access_defined (x : Container α) (h : WF x) (i j k : Nat) (v : α) (hi : i < x.components) :
+    (j < x.dim → ∃ y, writeMean x i j v = some y) ∧
+    (j < x.dimCovariance → k < x.dimCovariance → ∃ y, writeCov x i j k v = some y) ∧
+    (∃ y, writeWeight x i v = some y) ∧
+    (x.kind = Kind.ps → j < x.dim - x.dimNoise → ∃ y, writeState x i j v = some y) := by
+  refine ⟨?_, ?_, ?_, ?_⟩
+  · intro hj
+    simp only [writeMean, Sto.write, h.meanRows, h.meanCols]
+    rw [if_pos ⟨hj, hi⟩]
+    exact ⟨_, rfl⟩
+  · intro hj hk
+    have hc : x.dimCovariance * i + k < x.dimCovariance * x.components := by
+      have := radix_lt hi hk
+      rw [Nat.mul_comm x.dimCovariance i, Nat.mul_comm x.dimCovariance x.components]; exact this
+    simp only [writeCov, Sto.write, h.covRows, h.covCols]
+    rw [if_pos ⟨hj, hc⟩]
+    exact ⟨_, rfl⟩
+  · simp only [writeWeight, Sto.write, h.weightRows, h.weightCols]
+    rw [if_pos ⟨hi, by omega⟩]
+    exact ⟨_, rfl⟩
+  · intro hk hj
+    simp only [writeState, Sto.write, h.stateRows hk, h.stateCols hk]
+    rw [if_pos ⟨hj, hi⟩]
+    exact ⟨_, rfl⟩
+
 /-! ### New mixtures start with uniform weights -/
 
 /-- Every constructor sets every weight to `1 / components`. -/
@@ -331,6 +360,114 @@ theorem concat_equal_layout (x rhs : Container α) (hx : WF x) (hr : WF rhs) (hx
     ∃ y, concat x rhs = some y := by
   rw [concat_defined x rhs hx hr hxk hrk, hr.dim, hr.dcov, hx.dim, hx.dcov, hl, hc, hq, hn]
   exact ⟨rfl, rfl, rfl⟩
+
+/-! ### The model stops only on misuse -/
+
+/-- A legal step never trips an assertion: on a pool of well-formed objects the only operations the
+    model stops at are `a += a` and a concatenation whose operands `concat_requires` refuses, and element
+    writes outside the storage. -/
+theorem step_assert_only_on_misuse [Zero α] [One α] [Div α] [NatCast α] (p : Pool α) (hp : PoolWF p) (op : Op α)
+    (h : step p op = Outcome.assert) :
+    (∃ d s, op = Op.concatAssign d s ∧ (d = s ∨ ∃ x r, p d = some x ∧ p s = some r ∧ concat x r = none)) ∨
+    (∃ d a b x r, op = Op.concatPlus d a b ∧ p a = some x ∧ p b = some r ∧ concat x r = none) ∨
+    (∃ s i j v x, op = Op.writeMean s i j v ∧ p s = some x ∧ ¬ (j < x.mean.rows ∧ i < x.mean.cols)) ∨
+    (∃ s i j k v x, op = Op.writeCov s i j k v ∧ p s = some x ∧
+      ¬ (j < x.cov.rows ∧ x.dimCovariance * i + k < x.cov.cols)) ∨
+    (∃ s i v x, op = Op.writeWeight s i v ∧ p s = some x ∧ ¬ (i < x.weight.rows ∧ 0 < x.weight.cols)) ∨
+    (∃ s i j v x, op = Op.writeState s i j v ∧ p s = some x ∧ ¬ (j < x.state.rows ∧ i < x.state.cols)) := by
+  have onSlot_assert : ∀ {s : Nat} {ok : Container α → Bool} {f : Container α → Option (Container α)},
+      onSlot p s ok f = Outcome.assert → ∃ x, p s = some x ∧ f x = none := by
+    intro s ok f hh
+    unfold onSlot at hh
+    split at hh
+    · cases hh
+    · next x hx =>
+      split_ifs at hh
+      split at hh
+      · cases hh
+      · next hf => exact ⟨x, hx, hf⟩
+  cases op with
+  | ctorDefault dst kind => simp [step] at h
+  | ctorDim dst kind k d => simp only [step] at h; split_ifs at h
+  | ctorLayout dst kind k l c q => simp only [step] at h; split_ifs at h
+  | copy dst src => simp only [step] at h; split at h <;> cases h
+  | slice dst src => simp only [step] at h; split at h <;> cases h
+  | resize s k l c =>
+    simp only [step] at h
+    obtain ⟨x, _, hf⟩ := onSlot_assert h
+    cases hf
+  | gaussianResize s l c =>
+    simp only [step] at h
+    obtain ⟨x, _, hf⟩ := onSlot_assert h
+    cases hf
+  | augment s qr qc q =>
+    simp only [step] at h
+    obtain ⟨x, hx, hf⟩ := onSlot_assert h
+    exfalso
+    have hw := hp s x hx
+    by_cases hsq : qr = qc
+    · subst hsq
+      obtain ⟨y, hy, _⟩ := augment_mean_cov x hw qr q
+      rw [hy] at hf
+      cases hf
+    · rw [augment_nonsquare x qr qc q hsq] at hf
+      cases hf
+  | concatAssign dst src =>
+    left
+    simp only [step] at h
+    split at h
+    · next x r hx hr =>
+      split_ifs at h with hk hds hpos
+      · exact ⟨dst, src, rfl, Or.inl hds⟩
+      · split at h
+        · cases h
+        · next hc => exact ⟨dst, src, rfl, Or.inr ⟨x, r, hx, hr, hc⟩⟩
+    · cases h
+  | concatPlus dst a b =>
+    right; left
+    simp only [step] at h
+    split at h
+    · next x r hx hr =>
+      split_ifs at h with hk
+      split at h
+      · cases h
+      · next hc => exact ⟨dst, a, b, x, r, rfl, hx, hr, hc⟩
+    · cases h
+  | writeMean s i j v =>
+    right; right; left
+    simp only [step] at h
+    obtain ⟨x, hx, hf⟩ := onSlot_assert h
+    refine ⟨s, i, j, v, x, rfl, hx, ?_⟩
+    intro hc
+    simp [writeMean, Sto.write, hc] at hf
+  | writeCov s i j k v =>
+    right; right; right; left
+    simp only [step] at h
+    obtain ⟨x, hx, hf⟩ := onSlot_assert h
+    refine ⟨s, i, j, k, v, x, rfl, hx, ?_⟩
+    intro hc
+    simp [writeCov, Sto.write, hc] at hf
+  | writeWeight s i v =>
+    right; right; right; right; left
+    simp only [step] at h
+    obtain ⟨x, hx, hf⟩ := onSlot_assert h
+    refine ⟨s, i, v, x, rfl, hx, ?_⟩
+    intro hc
+    simp [writeWeight, Sto.write, hc] at hf
+  | writeState s i j v =>
+    right; right; right; right; right
+    simp only [step] at h
+    obtain ⟨x, hx, hf⟩ := onSlot_assert h
+    refine ⟨s, i, j, v, x, rfl, hx, ?_⟩
+    intro hc
+    simp [writeState, Sto.write, hc] at hf
+  | fill s val =>
+    simp only [step] at h
+    obtain ⟨x, hx, hf⟩ := onSlot_assert h
+    exfalso
+    obtain ⟨y, hy⟩ := fill_defined x val (hp s x hx)
+    rw [hy] at hf
+    cases hf
 
 /-! ### Non-vacuity: the hypotheses above are satisfiable on non-trivial instances -/
 
